@@ -352,7 +352,7 @@ class Gen(object):
 
     def __init__(self, rng, avoid=None, big=False, features=None):
         self.rng = rng
-        self.avoid = avoid or (lambda t, where: False)
+        self.avoid = avoid or (lambda t, where, resolve: False)
         self.big = big
         self.features = features or {}
 
@@ -417,7 +417,8 @@ class Gen(object):
         r = self.rng
         for _ in range(40):
             t = self._any_type(depth, names)
-            if not any(self.avoid(x, 'any') for x in subtypes(t)):
+            if not any(self.avoid(x, 'type', self.spec_resolve) for x in subtypes(t)) and not any(
+                    self.avoid(m, 'member', self.spec_resolve) for x in subtypes(t) if x.kind == 'seq' for m in x.members):
                 return t
         return TBool()
 
@@ -460,6 +461,10 @@ class Gen(object):
                     members.append(Member(mn, ty, default=d[0], has_default=True))
             else:
                 members.append(Member(mn, ty))
+            if self.avoid(members[-1], 'member', self.spec_resolve):
+                members[-1] = Member(mn, members[-1].ty)
+                if self.avoid(members[-1], 'member', self.spec_resolve):
+                    members.pop()
         return TSeq(members, ext=r.random() < self.features.get('seq_ext', .2))
 
     def choice(self, depth, names):
@@ -512,8 +517,15 @@ class Gen(object):
 # --------------------------------------------------------------------------
 # random values (in the value form of the Python codecs)
 
-def gen_value(spec, ty, rng, edge=None):
-    """edge: None (random), 'lo', 'hi'."""
+def gen_value(spec, ty, rng, edge=None, budget=None):
+    """edge: None (random), 'lo', 'hi'.  budget: one-element list with the
+    number of leaves still allowed (keeps the generated fill code small); once
+    it is used up lists take their minimum size and OPTIONAL members are absent."""
+    if budget is None:
+        budget = [5000]
+    budget[0] -= 1
+    if budget[0] <= 0 and edge != 'lo':
+        edge = 'lo'
     t = spec.resolve(ty)
     k = t.kind
     if k == 'bool':
@@ -559,7 +571,7 @@ def gen_value(spec, ty, rng, edge=None):
         for m in t.members:
             if m.optional:
                 if (edge == 'hi') or (edge is None and rng.random() < .55):
-                    d[m.name] = gen_value(spec, m.ty, rng, edge)
+                    d[m.name] = gen_value(spec, m.ty, rng, edge, budget)
             elif m.has_default:
                 x = rng.random()
                 if edge == 'lo' or (edge is None and x < .35):
@@ -567,13 +579,13 @@ def gen_value(spec, ty, rng, edge=None):
                 elif edge is None and x < .5:
                     d[m.name] = m.default                 # the default value given explicitly
                 else:
-                    d[m.name] = gen_value(spec, m.ty, rng, edge)
+                    d[m.name] = gen_value(spec, m.ty, rng, edge, budget)
             else:
-                d[m.name] = gen_value(spec, m.ty, rng, edge)
+                d[m.name] = gen_value(spec, m.ty, rng, edge, budget)
         return d
     if k == 'seqof':
         n = t.lo if edge == 'lo' else t.hi if edge == 'hi' else rng.choice([t.lo, t.hi, rng.randint(t.lo, t.hi)])
-        return [gen_value(spec, t.elem, rng, edge if rng.random() < .3 else None) for _ in range(n)]
+        return [gen_value(spec, t.elem, rng, edge if rng.random() < .3 else None, budget) for _ in range(n)]
     if k == 'choice':
         if edge == 'lo':
             n, a = t.alts[0]
@@ -581,7 +593,7 @@ def gen_value(spec, ty, rng, edge=None):
             n, a = t.alts[-1]
         else:
             n, a = rng.choice(t.alts)
-        return (n, gen_value(spec, a, rng, edge))
+        return (n, gen_value(spec, a, rng, edge, budget))
     raise ValueError(k)
 
 
@@ -592,9 +604,13 @@ def c_supported_type(spec, t, seen=()):
     k = t.kind
     if k == 'raw':
         return 'outside the subset'
+    if k in ('int', 'octets', 'seqof') and t.ext:
+        return 'extensible constraint (README: extension additions only in the OER generator)'
     if k == 'int':
         if t.lo < I64_MIN or t.hi > U64_MAX or (t.lo < 0 and t.hi > I64_MAX):
             return 'INTEGER wider than 64 bits'
+    if k in ('octets', 'seqof') and t.hi > 65535:
+        return 'size above 65535 (X.691 fragmentation, not generated)'
     if k == 'bits' and t.n > 64:
         return 'BIT STRING longer than 64 bits'
     if k == 'ref':
